@@ -71,9 +71,16 @@ class C02(Prop):
                 "NV.C02.include_depth_bounded", "NV.C02.include_stack_empty_after_end", "NV.C02.lexer_flag_clear_after_start", "NV.C02.yytext_in_bounds",
                 "NV.C02.scratch_writes_in_bounds", "NV.C02.scratch_empty_after_destroy", "NV.C02.idents_restored", "NV.C02.locals_reset_after_cleanup"]
     witness_theorems = []
+    # how far a STORE_* macro of lib/port/byte_code.h advances the code pointer = what ins_* writes (MEASURED by
+    # running the macro in the probe, not copied)
+    _adv = "({ char b_[64]; char *pc_ = b_; %s v_ = 0; %s (pc_, v_); (long) (pc_ - b_); })"
     consts = [("maxline", "MAXLINE"), ("defmax", "DEFMAX"), ("startBlockSize", "START_BLOCK_SIZE"),
-              ("numAreas", "NUMAREAS"), ("scratchpadSize", "SCRATCHPAD_SIZE")]
-    const_headers = ["lib/lpc/lex.h", "lib/lpc/compiler.h", "lib/misc/scratchpad.h"]
+              ("numAreas", "NUMAREAS"), ("scratchpadSize", "SCRATCHPAD_SIZE"), ("mlen", "MLEN"), ("nargs", "NARGS"),
+              ("nsize", "NSIZE"),
+              ("wrShort", _adv % ("short", "STORE_SHORT")), ("wrInt", _adv % ("int", "STORE_INT")),
+              ("wrLong", _adv % ("int64_t", "STORE_LONG")), ("wrReal", _adv % ("double", "STORE_FLOAT")),
+              ("wrPtr", "(sizeof (intptr_t) == 4) ? " + _adv % ("intptr_t", "STORE4") + " : " + _adv % ("intptr_t", "STORE8"))]
+    const_headers = ["lib/lpc/lex.h", "lib/lpc/compiler.h", "lib/misc/scratchpad.h", "lib/port/byte_code.h"]
     quick_n = 900
     thorough_n = 4000
     search_n = 600
@@ -141,7 +148,120 @@ class C02(Prop):
         # the include-depth test must exist
         if not re.search(r"if\s*\(\s*(\+\+incnum\s*==|incnum\s*\+\s*1\s*>=)\s*MAX_INCLUDE_DEPTH\s*\)", lex):
             raise X.TieBroken("lex.c:handle_include depth test", "the include depth test in handle_include was not found")
+        out += self.gen_emit()
+        out += self.gen_lexbuf(lex)
         return "\n".join(out)
+
+    # ---- icode.c: what every ins_* reserves ------------------------------------
+    @staticmethod
+    def fn_body(text, name):
+        m = re.search(r"\n(?:static\s+)?[A-Za-z_][A-Za-z_0-9 \*]*?\b%s\s*\([^)]*\)\s*\{" % re.escape(name), text)
+        if not m:
+            return None
+        i = m.end()
+        depth = 1
+        while i < len(text) and depth:
+            depth += {"{": 1, "}": -1}.get(text[i], 0)
+            i += 1
+        return text[m.end():i]
+
+    def gen_emit(self):
+        ic = open(os.path.join(E.REPO, "lib/lpc/program/icode.c"), errors="replace").read()
+        out = []
+        for lean, fn in (("resShort", "ins_short"), ("resInt", "ins_int"), ("resLong", "ins_long"), ("resReal", "ins_real"),
+                         ("resPtr", "ins_intptr")):
+            body = self.fn_body(ic, fn)
+            if body is None:
+                raise X.TieBroken("icode.c:%s" % fn, "cannot locate %s() in icode.c" % fn)
+            if fn == "ins_intptr":
+                # the branch compiled on this platform (64-bit pointers)
+                k = body.find("UINTPTR_MAX == UINT64_MAX")
+                body = body[k:] if k >= 0 else body
+            m = re.search(r"if\s*\(\s*prog_code\s*\+\s*(\d+)\s*>\s*prog_code_max\s*\)", body)
+            if not m:
+                raise X.TieBroken("icode.c:%s room test" % fn,
+                                  "the test `prog_code + N > prog_code_max` in front of the store of %s() was not found: "
+                                  "what the function reserves can no longer be read from the source" % fn)
+            st = re.search(r"\bSTORE\w*\s*\(", body)
+            if not st or st.start() < m.start():
+                raise X.TieBroken("icode.c:%s order" % fn, "the store of %s() is no longer behind its room test" % fn)
+            out.append("/-- source: icode.c:%s `prog_code + %s > prog_code_max` -/\ndef %s : Nat := %s" % (fn, m.group(1), lean, m.group(1)))
+        body = self.fn_body(ic, "ins_byte")
+        if body is None or not re.search(r"if\s*\(\s*prog_code\s*==\s*prog_code_max\s*\)", body):
+            raise X.TieBroken("icode.c:ins_byte room test", "the test `prog_code == prog_code_max` of ins_byte() was not found")
+        return out
+
+    # ---- lex.c: slack constants and guards of the text buffers --------------------
+    def gen_lexbuf(self, lex):
+        out = []
+
+        def const(name, rx, site, body=None, flags=0):
+            m = re.search(rx, body if body is not None else lex, flags)
+            if not m:
+                raise X.TieBroken(site, "cannot locate %s in the source" % site)
+            out.append("/-- source: %s -/\ndef %s : Nat := %d" % (site, name, int(m.group(1))))
+
+        def flag(name, present, site):
+            out.append("/-- source: %s (guard present?) -/\ndef %s : Bool := %s" % (site, name, "true" if present else "false"))
+        ai = self.fn_body(lex, "add_input")
+        if ai is None:
+            raise X.TieBroken("lex.c:add_input", "cannot locate add_input()")
+        const("addMaxSlack", r"if\s*\(\s*len\s*>=\s*DEFMAX\s*-\s*(\d+)\s*\)", "lex.c:add_input `len >= DEFMAX - N`", ai)
+        const("addFrontSlack", r"if\s*\(\s*outptr\s*<\s*len\s*\+\s*(\d+)\s*\+\s*cur_lbuf->buf\s*\)", "lex.c:add_input `outptr < len + N + buf`", ai)
+        const("addLineSlack", r"\(\s*\(q\s*-\s*outptr\)\s*\+\s*len\s*\)\s*>=\s*DEFMAX\s*-\s*(\d+)", "lex.c:add_input `(q - outptr) + len >= DEFMAX - N`", ai)
+        const("addEndSlack", r"buf_end\s*=\s*buf\s*\+\s*DEFMAX\s*-\s*(\d+)\s*\)\s*-\s*1", "lex.c:add_input `buf_end = buf + DEFMAX - N`", ai)
+        m = re.search(r"new_outp\s*=\s*new_lbuf->outptr\s*=\s*buf\s*\+\s*DEFMAX\s*-\s*(\d+)\s*-\s*size", ai)
+        m2 = re.search(r"buf_end\s*=\s*buf\s*\+\s*DEFMAX\s*-\s*(\d+)\s*\)\s*-\s*1", ai)
+        if not m or m.group(1) != m2.group(1):
+            raise X.TieBroken("lex.c:add_input new_outp", "new_outp is no longer `buf + DEFMAX - N - size` with the N of buf_end")
+        if not re.search(r"size\s*=\s*\(q\s*-\s*outptr\)\s*\+\s*len\s*\+\s*1\s*;", ai):
+            raise X.TieBroken("lex.c:add_input size", "`size = (q - outptr) + len + 1` not found")
+        ed = self.fn_body(lex, "expand_define")
+        if ed is None:
+            raise X.TieBroken("lex.c:expand_define", "cannot locate expand_define()")
+        gs = [int(x) for x in re.findall(r"if\s*\(\s*q\s*>=\s*expbuf\s*\+\s*DEFMAX\s*-\s*(\d+)\s*\)", ed)]
+        if not gs:
+            raise X.TieBroken("lex.c:expand_define argument guard", "no `q >= expbuf + DEFMAX - N` test found")
+        out.append("/-- source: lex.c:expand_define weakest `q >= expbuf + DEFMAX - N` -/\ndef argSlack : Nat := %d" % min(gs))
+        top = re.search(r"for\s*\(\s*n\s*=\s*0\s*;\s*n\s*<\s*NARGS\s*;\s*\)\s*\{\s*(?:/\*.*?\*/\s*)*(?:#ifdef[^\n]*\n[^#]*#endif\s*)?if\s*\(\s*q\s*>=\s*expbuf\s*\+\s*DEFMAX",
+                        ed, re.S)
+        flag("argGuardAtTop", bool(top), "lex.c:expand_define test at the start of every round of the argument loop")
+        inner = re.search(r"if\s*\(\s*q\s*>=\s*expbuf\s*\+\s*DEFMAX\s*-\s*\d+\s*\)\s*\{[^}]*\}\s*else\s*\{\s*\*q\+\+\s*=\s*\(char\)\s*c\s*;", ed)
+        flag("argInnerGuard", bool(inner), "lex.c:expand_define test in front of the ordinary store")
+        # expansion loop: every `*b++ = ...` store must be followed by the `b >= buf + DEFMAX` test
+        exp = ed[ed.find("/* Do expansion */"):] if "/* Do expansion */" in ed else None
+        if exp is None:
+            raise X.TieBroken("lex.c:expand_define expansion loop", "cannot locate the expansion loop")
+        g = r"\s*if\s*\(\s*b\s*>=\s*buf\s*\+\s*DEFMAX\s*\)"
+        flag("bodyGuardMarks", bool(re.search(r"\*b\+\+\s*=\s*\*e\+\+\s*;" + g + r"[^}]*\}\s*\}\s*else\s*\{\s*for", exp)), "lex.c:expand_define MARKS MARKS store")
+        flag("bodyGuardArg", bool(re.search(r"\*b\+\+\s*=\s*\*q\+\+\s*;" + g, exp)), "lex.c:expand_define argument copy store")
+        flag("bodyGuardLit", len(re.findall(r"\*b\+\+\s*=\s*\*e\+\+\s*;" + g, exp)) >= (2 if re.search(r"\*b\+\+\s*=\s*\*e\+\+\s*;" + g + r"[^}]*\}\s*\}\s*else\s*\{\s*for", exp) else 1)
+             and len(re.findall(r"\*b\+\+\s*=\s*\*e\+\+\s*;", exp)) == 2, "lex.c:expand_define literal store")
+        hd = self.fn_body(lex, "handle_define")
+        if hd is None:
+            raise X.TieBroken("lex.c:handle_define", "cannot locate handle_define()")
+        gs = [int(x) for x in re.findall(r"if\s*\(\s*q\s*<\s*mtext\s*\+\s*MLEN\s*-\s*(\d+)\s*\)", hd)]
+        if len(gs) != 2:
+            raise X.TieBroken("lex.c:handle_define guards", "expected two `q < mtext + MLEN - N` tests, found %d" % len(gs))
+        out.append("/-- source: lex.c:handle_define function-like loop `q < mtext + MLEN - N` -/\ndef defFnSlack : Nat := %d" % gs[0])
+        out.append("/-- source: lex.c:handle_define object-like loop `q < mtext + MLEN - N` -/\ndef defObjSlack : Nat := %d" % gs[1])
+        gt = self.fn_body(lex, "get_terminator")
+        if gt is None:
+            raise X.TieBroken("lex.c:get_terminator", "cannot locate get_terminator()")
+        m = re.search(r"if\s*\(\s*j\s*>=\s*(MAXLINE(?:\s*[-+]\s*\d+)?)\s*\)\s*return", gt)
+        flag("termGuard", bool(m), "lex.c:get_terminator `j >= LIMIT` before the store")
+        lim = m.group(1) if m else "MAXLINE"
+        mm = re.search(r"#define\s+MAXLINE\s+(\d+)", open(os.path.join(E.REPO, "lib/lpc/lex.h")).read())
+        out.append("/-- source: lex.c:get_terminator limit `%s` -/\ndef termLimit : Nat := %d" % (lim, eval(lim.replace("MAXLINE", mm.group(1)))))
+        const("termBufSize", r"static\s+char\s+terminator\s*\[\s*MAXLINE\s*\+\s*(\d+)\s*\]", "lex.c:yylex `terminator[MAXLINE + N]` (N)")
+        hi = self.fn_body(lex, "handle_include")
+        if hi is None:
+            raise X.TieBroken("lex.c:handle_include", "cannot locate handle_include()")
+        m = re.search(r"macro_hops\+\+\s*<\s*MAX_INCLUDE_DEPTH", hi)
+        recursive = bool(re.search(r"\bhandle_include\s*\(\s*q\s*,", hi))
+        flag("includeHopGuard", bool(m) and not recursive, "lex.c:handle_include bounded `#include MACRO` loop")
+        out.append("/-- source: lex.c:handle_include hop limit = MAX_INCLUDE_DEPTH -/\ndef includeHopLimit : Nat := maxIncludeDepth")
+        return out
 
     # ---- implementation / model ---------------------------------------------
     def prepare(self, ctx):
